@@ -60,6 +60,15 @@ def pureStep (f : List String) : String :=
       | .ok (p, n) => s!"dec ok {hexOrDash p} {n}"
       | .error _ => "dec err"
     | none => "bad-op dec"
+  | ["rload", present, v] =>
+    -- `ruggedPersistence.Load` (mqtt.go:434-448): absent stays absent, everything present goes through `decodeValue`
+    if present != "1" then "rload absent" else
+    match (if v == "-" then some [] else ofHex v) with
+    | some vb =>
+      match decodeValue vb with
+      | .ok (p, _) => s!"rload ok {hexOrDash p}"
+      | .error _ => "rload err"
+    | none => "bad-op rload"
   | ["strcheck", s] =>
     match ofHex s with
     | some b => "strcheck " ++ denyStr (stringCheck b)
